@@ -28,7 +28,7 @@ const modulePath = "github.com/tikv/pd"
 // <repo>/pkg/zzvrf, and patched copies of three clientv3 files (accessors for
 // Op.limit/leaseID; NewKV/NewLease return the in-memory model when the client
 // carries one). Nothing is written to /repo.
-func BuildOverlay(repo, pkgPath string, harness []string, zzvrfDir string) (map[string][]byte, error) {
+func BuildOverlay(repo, pkgPath string, harness []string, zzvrfDir string, native bool) (map[string][]byte, error) {
 	overlay := map[string][]byte{}
 	rel := strings.TrimPrefix(pkgPath, modulePath)
 	pkgDir := filepath.Join(repo, rel)
@@ -36,11 +36,17 @@ func BuildOverlay(repo, pkgPath string, harness []string, zzvrfDir string) (map[
 		if h == "" {
 			continue
 		}
+		// "file.go" goes into the target package; "file.go@server/election" into that package directory
+		dir := pkgDir
+		if i := strings.Index(h, "@"); i >= 0 {
+			dir = filepath.Join(repo, h[i+1:])
+			h = h[:i]
+		}
 		data, err := os.ReadFile(h)
 		if err != nil {
 			return nil, err
 		}
-		overlay[filepath.Join(pkgDir, "zz_verif_"+filepath.Base(h))] = data
+		overlay[filepath.Join(dir, "zz_verif_"+filepath.Base(h))] = data
 	}
 	err := filepath.Walk(zzvrfDir, func(p string, info os.FileInfo, err error) error {
 		if err != nil {
@@ -106,6 +112,31 @@ func BuildOverlay(repo, pkgPath string, harness []string, zzvrfDir string) (map[
 	}); err != nil {
 		return nil, err
 	}
+	if native {
+		// controllable clock for native replay: time.Now / Since / Until consult VerifNowHook
+		out, err := exec.Command("go", "env", "GOROOT").Output()
+		if err != nil {
+			return nil, err
+		}
+		tfile := filepath.Join(strings.TrimSpace(string(out)), "src", "time", "time.go")
+		data, err := os.ReadFile(tfile)
+		if err != nil {
+			return nil, err
+		}
+		src := string(data)
+		for _, r := range [][2]string{
+			{"func Now() Time {\n\tsec, nsec, mono := now()", "func Now() Time {\n\tsec, nsec, mono := verifNow()"},
+			{"func Since(t Time) Duration {\n", "func Since(t Time) Duration {\n\tif VerifNowHook != nil {\n\t\treturn Now().Sub(t)\n\t}\n"},
+			{"func Until(t Time) Duration {\n", "func Until(t Time) Duration {\n\tif VerifNowHook != nil {\n\t\treturn t.Sub(Now())\n\t}\n"},
+		} {
+			if !strings.Contains(src, r[0]) {
+				return nil, fmt.Errorf("patching time.go: pattern %q not found", r[0])
+			}
+			src = strings.Replace(src, r[0], r[1], 1)
+		}
+		src += "\n// appended by /verif (overlay only)\nvar VerifNowHook func() (wall int64, mono int64, ok bool)\n\nfunc verifNow() (sec int64, nsec int32, mono int64) {\n\tif VerifNowHook != nil {\n\t\tif w, m, ok := VerifNowHook(); ok {\n\t\t\treturn w / 1e9, int32(w % 1e9), m + startNano\n\t\t}\n\t}\n\treturn now()\n}\n"
+		overlay[tfile] = []byte(src)
+	}
 	return overlay, nil
 }
 
@@ -113,7 +144,7 @@ func BuildOverlay(repo, pkgPath string, harness []string, zzvrfDir string) (map[
 // overlay of BuildOverlay and builds SSA for the whole program.
 func Load(repo, pkgPath string, harness []string, zzvrfDir string) (*Loaded, error) {
 	t0 := time.Now()
-	overlay, err := BuildOverlay(repo, pkgPath, harness, zzvrfDir)
+	overlay, err := BuildOverlay(repo, pkgPath, harness, zzvrfDir, false)
 	if err != nil {
 		return nil, err
 	}
